@@ -520,7 +520,8 @@ func (ss *SortedSet) FindRank(key string) int {
 				x = x.level[i].forward
 			}
 
-			if x.key == key {
+			// the header sentinel has the empty key but is not a member
+			if x != ss.header && x.key == key {
 				return rank
 			}
 		}
